@@ -241,6 +241,8 @@ func checkC11(c *Ctx) {
 	}
 	c.check("goccy.quoted-key-rendered", gp+".encInfo.quotedKey", ed.Decl.Pos(), okUsed, "the recorded quotedKey must be consulted when the mapping is rendered")
 
+	checkYAMLBytesBinary(c)
+
 	// ---- token kinds
 	for _, spec := range []struct{ pkg, fn string }{{yp, "encodeScalar"}, {gp, "encodeScalar"}} {
 		f := c.fn(spec.pkg, spec.fn)
@@ -263,4 +265,85 @@ func checkC11(c *Ctx) {
 			c.check("scalar.kind-handled", f.Name+"/token."+k, f.Decl.Pos(), have[k], spec.fn+" must handle literal kind "+k)
 		}
 	}
+}
+
+// checkYAMLBytesBinary (shared by C11 and C12): bytes literals are always
+// emitted as !!binary, in both YAML encoders.
+func checkYAMLBytesBinary(c *Ctx) {
+	const yp = "internal/encoding/yaml"
+	const gp = "internal/encoding/yaml/goccy"
+	es := c.fn(gp, "encodeScalar")
+	// ---- bytes literals are always emitted as !!binary (goccy): decision
+	// table row for the class "STRING literal that is not double-quoted"
+	{
+		cf := newCaseFn(c, es)
+		truth := map[string]bool{}
+		var dbl string
+		for k := range cf.atoms() {
+			switch {
+			case strings.Contains(k, "p0.Kind") && strings.Contains(k, " == "):
+				truth[k] = strings.Contains(k, "token.STRING")
+			case strings.HasSuffix(k, ".IsDouble()"):
+				dbl = k
+				truth[k] = false
+			case strings.HasSuffix(k, " == nil") && strings.Contains(k, "ParseQuotes"):
+				truth[k] = true
+			}
+		}
+		rets, _ := cf.walk(cf.g.Entry, truth)
+		okB := dbl != "" && len(rets) > 0
+		nSucc := 0
+		for _, r := range rets {
+			if !strings.HasSuffix(r, ", nil") {
+				continue // error return
+			}
+			nSucc++
+			if !strings.Contains(r, `"!!binary "`) {
+				okB = false
+			}
+		}
+		okB = okB && nSucc > 0
+		c.check("goccy.bytes-always-binary", es.Name, es.Decl.Pos(), okB,
+			"a bytes literal (not double-quoted) must be emitted as a !!binary scalar whatever its content — a bytes value with a newline emitted as text reads back as a string; reachable results for that class: {"+strings.Join(rets, " | ")+"}")
+	}
+	// same for the yaml.v3 encoder: the !!binary tag is set on every path of that class
+	{
+		f3 := c.fn(yp, "encodeScalar")
+		cf := newCaseFn(c, f3)
+		truth := map[string]bool{}
+		var dbl string
+		for k := range cf.atoms() {
+			switch {
+			case strings.Contains(k, "p0.Kind") && strings.Contains(k, " == "):
+				truth[k] = strings.Contains(k, "token.STRING")
+			case strings.HasSuffix(k, ".IsDouble()"):
+				dbl = k
+				truth[k] = false
+			case strings.HasSuffix(k, " == nil") && (strings.Contains(k, "ParseQuotes") || strings.Contains(k, "Unquote")):
+				truth[k] = true
+			}
+		}
+		// every path of the class from the SetString to the exit passes `n.Tag = "!!binary"`
+		tagNodes := map[int]bool{}
+		for _, n := range cf.g.Nodes {
+			if as, ok := n.N.(*ast.AssignStmt); ok && len(as.Lhs) == 1 && len(as.Rhs) == 1 {
+				if sel, ok := as.Lhs[0].(*ast.SelectorExpr); ok && sel.Sel.Name == "Tag" {
+					if v, ok := constString(f3.Info(), as.Rhs[0]); ok && v == "!!binary" {
+						tagNodes[n.ID] = true
+					}
+				}
+			}
+		}
+		rets, vis := cf.walkBlocked(cf.g.Entry, truth, tagNodes)
+		okB := dbl != "" && len(tagNodes) > 0
+		for _, r := range rets {
+			if !strings.HasPrefix(r, "nil,") { // a success return reached without the tag
+				okB = false
+			}
+		}
+		_ = vis
+		c.check("v3.bytes-always-binary", f3.Name, f3.Decl.Pos(), okB,
+			"a bytes literal must get the !!binary tag on every path of the yaml.v3 encoder; success returns reachable without it: {"+strings.Join(rets, " | ")+"}")
+	}
+
 }
